@@ -2,7 +2,7 @@
 # usage: tools/seeded_harvest.sh C10 [checks...] — copy patch/demo/notes from /tmp/seed_C10, run the suite with the
 # change in the worktree (baseline comparison), then tools/seeded_check.sh
 P=$1; shift
-WT=/tmp/seed_$P
+WT=${SEED_WT:-/tmp/seed_$P}          # round 2: SEED_WT=/tmp/seed2_C05 tools/seeded_harvest.sh C05b C05
 cd /verif; mkdir -p seeded/$P
 git -C $WT diff > seeded/$P/patch.diff
 cp $WT/demo.py $WT/NOTES.md seeded/$P/ 2>/dev/null
@@ -22,7 +22,7 @@ echo "suite with change ($(tail -1 /tmp/seed_suite_$P.log)): baseline tests not 
 import json, sys, os
 p, missing = sys.argv[1:3]
 f=f"/verif/seeded/{p}/meta.json"
-meta = json.load(open(f)) if os.path.exists(f) else {"property": p, "patch": "patch.diff", "demo": "demo.py"}
+meta = json.load(open(f)) if os.path.exists(f) else {"property": p[:3], "patch": "patch.diff", "demo": "demo.py"}
 meta["suite_with_change_baseline_tests_not_passing"] = missing
 meta["ran"] = ["full pytest suite with the change in the scratch worktree (PATH=/venv/bin first), compared with BASELINE.json stable_pass",
                "demo.py against /repo HEAD without and with the patch", "git -C /repo apply patch.diff; ./check <id> --tier quick; git -C /repo checkout -- ."]
